@@ -581,7 +581,7 @@ func TestCheck(t *testing.T) {
 	if thorough {
 		add("rule2x", w.rule2Configs("rule2x", d2, d1), basicIdx, true)
 	}
-	nDeep, nMulti := ev.Pick(4000, 60000), ev.Pick(1000, 10000)
+	nDeep, nMulti := ev.Pick(4000, 40000), ev.Pick(1000, 6000)
 	jobs = append(jobs, job{gen: func(i int) sconfig { return w.deepConfig(i, atoms) }, n: nDeep, chains: allIdx, name: "deep"})
 	jobs = append(jobs, job{gen: func(i int) sconfig { return w.multiConfig(i, validScopes, d1, d2) }, n: nMulti, chains: allIdx, name: "multi"})
 
